@@ -71,3 +71,11 @@ C("C09", "model_checking",
   "and different after, full_waveform - noise == noiseless sum.",
   "canonical key = model state + sizes of the implementation's caches (so states with corrupted hidden caches are never merged away); "
   "cached waveforms may reflect the signals present at first read or all signals", "DESIGN.md §4 C09")
+C("C08", "exploration",
+  "exhaustive orbit lattice under the cube rotation group (+2 generic rotations) evaluated on the real antennas against a rotation-invariant closed-form oracle with a longhand-DFT filter reference",
+  "For a direction- and polarization-dependent Antenna subclass, DipoleAntenna and an AntennaSystem wrapping each: every orientation of the "
+  "orbit (9 quick / 48 + 2 generic thorough) x all 26 arrival directions x all 26 polarization vectors of {-1,0,1}^3 must give "
+  "filtered(signal) x directional gain x polarization gain x efficiency (/ antenna factor for fields) with the gains written as dot products "
+  "(so rotation covariance holds edge by edge); dipole gains sin(theta) and z.p; plus the signal lattice (4 value types x 4 signals x force_real: "
+  "rejection of undefined/power with nothing stored, linearity, input untouched) and receive of (s,p) pairs == sum of responses.",
+  "finite lattice of directions; gain pattern of the test antenna regular at the poles", "DESIGN.md §4 C08")
